@@ -170,7 +170,9 @@ def resolve_generic_fn_site(F, site, reach):
         ups = [r for r in roots if r[0] == 'upvar']
         if len(ups) != 1 or len(roots) != 1:
             return None
-        parent = F.body(fn.parent) or F.dropped(fn.parent)
+        # (a closure of a helper that was written in place is resolved in the helper itself: what every caller passed
+        # for the helper's parameters was recorded when it was inlined)
+        parent = (F.dropped(fn.orig_parent) if getattr(fn, 'orig_parent', None) else None) or F.body(fn.parent) or F.dropped(fn.parent)
         if not parent:
             return None
         # the closure literal in the parent: operand number = upvar index
@@ -354,7 +356,7 @@ def param_callbacks(F, b, c):
     f = b
     ap = common.deep_path(b, c.args[0])
     if b.kind == 'Closure':
-        f = F.body(b.root) or F.dropped(b.root)
+        f = (F.dropped(b.orig_parent) if getattr(b, 'orig_parent', None) else None) or F.body(b.root) or F.dropped(b.root)
         if f is None:
             return None
         ap = common.through_closure(f, b, c.args[0])
